@@ -23,6 +23,7 @@ OBLIGATIONS = [
     "NanoVerif.TrProofs.int16_safe_eq",
     "NanoVerif.TrProofs.f2dot14_safe_eq",
     "NanoVerif.TrProofs.fixed_safe_eq",
+    "NanoVerif.TrProofs.transformed_eq",
 ]
 DESIGN_REF = "DESIGN.md §5 C16"
 LEVEL_TEXT = ("Lean theorems over a line-by-line model of paint.transformed / gettransform / _decompose_uniform_transform / "
@@ -34,7 +35,7 @@ LEVEL_TEXT = ("Lean theorems over a line-by-line model of paint.transformed / ge
 LEVEL_NOTE = ("Trusted: Lean kernel + propext/Classical.choice/Quot.sound; the transcription of the COLRv1 colour-line rules; the "
               "correspondence harness. Floats: the real code is run on exact Fractions where possible; hypot enters as a recorded parameter; "
               "the almost_equal(a,0) fallback branch of decompose_translation is covered by correspondence only, not by a theorem."
-              " Tie T': the predicates and limits of fixed.py are re-translated on every run and proved equal to the models (`consts_agree`, `int16_safe_eq`, `f2dot14_safe_eq`, `fixed_safe_eq`).")
+              " Tie T': the predicates and limits of fixed.py are re-translated on every run and proved equal to the models (`consts_agree`, `int16_safe_eq`, `f2dot14_safe_eq`, `fixed_safe_eq`); `paint.transformed` itself is re-translated (imperative do-notation with early returns and mutable centre variables) and proved equal to the model for every affine (`transformed_eq`).")
 TECHNIQUE = "Lean 4 proof (case analysis per continuation, field arithmetic) + exact differential correspondence"
 ASSUMPTIONS = [
     "model arithmetic is exact (Q); the real code is run on fractions.Fraction where it is pure rational "
